@@ -932,6 +932,12 @@ func (w *World) InjectRaw(p int64, b []byte) {
 			w.mu.Unlock()
 		}
 	}()
+	// the entry point of the SHIP read loop (it processes the datagram before it returns: the next
+	// datagram of the connection is handed over only afterwards)
+	if sr, ok := pr.reader.(interface{ HandleShipPayloadMessage([]byte) }); ok {
+		sr.HandleShipPayloadMessage(b)
+		return
+	}
 	_, _ = pr.reader.HandleSpineMesssage(b)
 }
 
